@@ -564,6 +564,13 @@ func (lb *LoadBalancer) IsBackendHealthy(backend *Backend) bool {
 	return isHealthy
 }
 
+// healthy reports the backend's health flag under its mutex
+func (backend *Backend) healthy() bool {
+	backend.Mutex.RLock()
+	defer backend.Mutex.RUnlock()
+	return backend.IsHealthy
+}
+
 // IncrementConnections increments the active connection count for a backend
 func (backend *Backend) IncrementConnections() {
 	atomic.AddInt32(&backend.ActiveConnections, 1)
